@@ -443,3 +443,13 @@ Definition search_scratch_b (n : net) (sl0 : list slinfo) (t : tree) (fd : finde
   | Ret (ch, _) => forallb (scratch_b n sl0 t) ch
   | _ => true
   end.
+
+(* executable form of the hypotheses of the C07 theorems (soundness:
+   Proofs/SlicerFacts.v hyps_b_sound); evaluated on every generated case *)
+Fixpoint nodup_b (l : list nat) : bool :=
+  match l with [] => true | x :: l' => negb (memb x l') && nodup_b l' end.
+Definition hyps_b (n : net) (sl : list slinfo) (t : tree) : bool :=
+  nodup_b (output n)
+  && forallb (fun j => memb j (lkeys (involved n sl t))) (lkeys (root_legs n sl))
+  && forallb (fun kv => 0 <? snd kv) (szd n)
+  && nodup_b (zd_keys (szd n)).
